@@ -85,7 +85,7 @@ def gen_perf(w, k):
         controls = [{"type": "c", "number": w.choice((64, 67, 1, 7)), "value": w.randrange(0, 128), "time": round(w.uniform(0, 9), 6), "track": w.choice(tracks), "channel": w.choice((0, 1))} for _ in range(k.choice((0, 0, 2, 5)))]
         programs = [{"program": w.randrange(0, 128), "time": round(w.uniform(0, 2), 6), "track": w.choice(tracks), "channel": w.choice((0, 1))} for _ in range(k.choice((0, 0, 1, 2)))]
         ts = [{"time": 0.0, "beats": w.choice((3, 4, 6)), "beat_type": w.choice((4, 8)), "track": tracks[0]}] if w.random() < 0.4 else []
-        ks = [{"time": 0.0, "fifths": w.randrange(-5, 6), "mode": w.choice(("major", "minor")), "track": tracks[0]}] if w.random() < 0.4 else []
+        ks = [{"time": 0.0, "fifths": w.randrange(-5, 6), "mode": w.choice(("major", "minor", "major", "minor", -1, 1, None)), "track": tracks[0]}] if w.random() < 0.4 else []
         meta = [{"type": "marker", "text": "m%d" % pi, "time": round(w.uniform(0, 3), 6), "track": tracks[0]}] if w.random() < 0.3 else []
         parts.append({"id": "PP%d" % pi, "notes": notes, "controls": controls, "programs": programs, "time_signatures": ts, "key_signatures": ks, "meta_other": meta})
     # precondition: no two notes of equal pitch and channel overlap within a track (in ticks, touching excluded too)
@@ -458,7 +458,8 @@ def check_loaded(res, loaded, pps, perf, kn, merged_load):
     gotts = sorted((c["beats"], c["beat_type"]) for pp in loaded.performedparts for c in pp.time_signatures)
     if wantts != gotts:
         res.violation("P5-meta", "load", "time signatures loaded %s, saved %s" % (gotts, wantts), site="time_signature")
-    wantks = sorted((c.get("fifths", 0), c.get("mode")) for pp in pps for c in pp.key_signatures)
+    # the mode may be given by name or, as documented, as -1 (minor) / 1 (major) / None (major)
+    wantks = sorted((c.get("fifths", 0), "minor" if c.get("mode") in ("minor", -1) else "major") for pp in pps for c in pp.key_signatures)
     gotks = sorted((c["fifths"], c["mode"]) for pp in loaded.performedparts for c in pp.key_signatures)
     if wantks != gotks:
         res.violation("P5-meta", "load", "key signatures loaded %s, saved %s" % (gotks, wantks), site="key_signature")
